@@ -32,7 +32,8 @@ from .paths import U
 
 SRC = 'SRC'
 URI = 'URI'      # additionally: the value was read from (or computed from) a URI-valued field
-NOSCHEME = 'NOSCHEME'   # additionally: a constant-length prefix was sliced off (`uri[7:]`): the `scheme://` the masking regexes anchor on is gone, a sanitizer can no longer mask this value
+NOSCHEME = 'NOSCHEME'   # additionally: the value was cut - a constant-length prefix sliced off (`uri[7:]`: the `scheme://` the masking regexes anchor on is gone) or clipped at the tail
+                        # (`s[:256]`: the `@host` they need after `user:pwd` may be gone); a sanitizer can no longer mask this value
 EMPTY = frozenset()
 
 SANITIZERS = {'hide_uri_users_and_pwds', 'hide_uri_pwds'}
@@ -70,6 +71,7 @@ CLEAN_ATTRS = {
     'suffix': 'pathlib: the extension of the last path component',
     'scheme': 'urlparse: the scheme only',
     'port': 'urlparse: a number',
+    'status_code': 'requests: the integer HTTP status of a response',
 }
 
 
@@ -112,6 +114,7 @@ class TaintEngine:
         self.uri_fields = set(BASE_URI_FIELDS)
         self.declared_fields: set[str] = set()
         self.field_stores: dict[str, dict] = {}   # field name -> [is the stored value tainted?] over all `cfg.field = e` stores
+        self.cut_config_stores: dict[tuple, tuple] = {}   # (fn key, target text) -> (node, module): normalize_config stores a cut (scheme-less / clipped) URI into the configuration
         self.unresolved_calls: dict[str, int] = {}
         self.external_clean_calls: dict[str, int] = {}
         self.changed = False
@@ -484,6 +487,7 @@ class _Analysis:
                 e = dict(env)
                 if h.name:
                     e[h.name] = lab
+                    e['<excorigin>' + h.name] = list(caught)     # which raises the handler's exception object may come from (keys the report of a handler that logs it)
                 self.block(h.body, e)
                 self.join_into(env, env, e)
                 if h.type is None or U(h.type) in ('Exception', 'BaseException') or (isinstance(h.type, ast.Tuple) and any(U(x) in ('Exception', 'BaseException') for x in h.type.elts)):
@@ -505,6 +509,10 @@ class _Analysis:
             return
         if isinstance(st, ast.Assert):
             self.ev(st.test, env)
+            if st.msg is not None:     # `assert cond, message`: an AssertionError that carries the message
+                lab = self.ev(st.msg, env)
+                if lab:
+                    self._add_raise(st, self.fi.mod, lab)
             return
         if isinstance(st, ast.Delete):
             return
@@ -562,6 +570,8 @@ class _Analysis:
                 self.eng.note_field_store(tgt.attr, tgt, SRC in labels)
                 if SRC in labels and URI in labels and self.fi.node.name == 'normalize_config':
                     self.eng.add_uri_field(tgt.attr, f'{self.fi.key}:{tgt.lineno}')
+                if SRC in labels and NOSCHEME in labels and self.fi.node.name == 'normalize_config':
+                    self.eng.cut_config_stores[(self.fi.key, U(tgt))] = (tgt, self.fi.mod)
             if isinstance(base, ast.Name):
                 env[base.id] = env.get(base.id, EMPTY) | labels if isinstance(env.get(base.id, EMPTY), frozenset) else labels
             return
@@ -572,6 +582,8 @@ class _Analysis:
                 self.eng.note_field_store(k, tgt, SRC in labels)
                 if SRC in labels and URI in labels and self.fi.node.name == 'normalize_config':
                     self.eng.add_uri_field(k, f'{self.fi.key}:{tgt.lineno}')
+                if SRC in labels and NOSCHEME in labels and self.fi.node.name == 'normalize_config':
+                    self.eng.cut_config_stores[(self.fi.key, U(tgt))] = (tgt, self.fi.mod)
             root = base
             while isinstance(root, (ast.Subscript, ast.Attribute)):
                 root = root.value
@@ -800,6 +812,9 @@ class _Analysis:
             return bl | frozenset([URI])
         if bl and isinstance(node.slice, ast.Slice) and isinstance(node.slice.lower, ast.Constant) and isinstance(node.slice.lower.value, int) and node.slice.lower.value >= 3 \
                 and node.slice.upper is None:
+            return bl | frozenset([NOSCHEME])
+        if bl and isinstance(node.slice, ast.Slice) and node.slice.upper is not None and not (isinstance(node.slice.upper, ast.Constant) and node.slice.upper.value is None):
+            # a value clipped at the tail (`s[:256]`) can lose the `@host` the masking regexes need after `user:pwd`: the sanitizer no longer masks it
             return bl | frozenset([NOSCHEME])
         return bl
 
@@ -1054,6 +1069,8 @@ class _Analysis:
             kind = 'log'
         elif isinstance(f, ast.Attribute) and f.attr in LOG_LEVELS and U(f.value).endswith('logger'):
             kind = 'log'
+        elif isinstance(f, ast.IfExp) and all(isinstance(a, ast.Attribute) and a.attr in LOG_LEVELS and U(a.value).endswith(('logger', 'logging', 'log')) for a in (f.body, f.orelse)):
+            kind = 'log'      # (logger.warning if cond else logger.error)(message)
         elif isinstance(f, ast.Name) and f.id == 'print':
             kind = 'log'
         elif isinstance(f, ast.Name) and f.id == 'once' and node.args and isinstance(node.args[0], ast.Attribute) and node.args[0].attr in LOG_LEVELS:
@@ -1067,6 +1084,12 @@ class _Analysis:
             kind, allargs = 'frame-meta', args[0]
         elif fname in ('emit_start', 'update_heartbeat_lineage'):
             kind, allargs = 'lineage', kwargs.get('facets', EMPTY) | (args[0] if args else EMPTY)
+        if kind == 'log' and len(node.args) == 1 and isinstance(node.args[0], ast.Name) and isinstance(env.get('<excorigin>' + node.args[0].id), list):
+            # logging the exception object of the enclosing handler: one report per raise it can come from, so that each origin is a finding of its own
+            for (rn, rmod, rl) in env['<excorigin>' + node.args[0].id]:
+                if rl:
+                    self.sum.sinks.append((_ExcSink(node, rn), self.fi.mod, kind, frozenset(rl), f'{U(node)[:80]} <- {rmod.relpath.rsplit("/", 1)[-1]}: {U(rn)[:120]}'))
+            return
         if kind and allargs:
             self._add_sink(node, self.fi.mod, kind, allargs, U(node)[:160])
 
@@ -1086,6 +1109,19 @@ class _Analysis:
                 self.sum.raises[i] = (n, m, l | labels)
                 return
         self.sum.raises.append((node, mod, frozenset(labels)))
+
+
+class _ExcSink:
+    """a log call of a handler's exception object, taken together with one raise the exception may come from; stands in for the call node in reports"""
+    def __init__(self, call, origin):
+        self.call, self.origin = call, origin
+        self.lineno, self.col_offset, self.end_lineno = call.lineno, call.col_offset, getattr(call, 'end_lineno', call.lineno)
+
+    def __eq__(self, other):
+        return isinstance(other, _ExcSink) and self.call is other.call and self.origin is other.origin
+
+    def __hash__(self):
+        return hash((id(self.call), id(self.origin)))
 
 
 class _ElemOf:
